@@ -88,8 +88,10 @@ def one_upgrad(ctx: Ctx):
     pv = rng.choice([None, [rng.randint(1, 4) for _ in range(m)]])
     ladder = [1e-2, 1e-4, 1e-6, 1e-8]
     ratios = []
+    pd = rng.choice([torch.float64, torch.int64, torch.int64, torch.float32, torch.float16])   # small integers: exact in each
+    ctx.count("upgrad_pref_dtype", "none" if pv is None else str(pd))
     for reg in ladder:
-        A = UPGrad(pref_vector=None if pv is None else torch.tensor([float(v) for v in pv], dtype=torch.float64),
+        A = UPGrad(pref_vector=None if pv is None else torch.tensor([float(v) for v in pv], dtype=torch.float64).to(pd),
                    norm_eps=1e-3, reg_eps=reg)    # a visible norm_eps: mixing it up with reg_eps changes the ladder
         xs = [A((c[:, None] * Jt)) for c in (c1, c2, a * c1 + b * c2)]
         Jc = (a * c1 + b * c2)[:, None] * Jt
@@ -101,7 +103,7 @@ def one_upgrad(ctx: Ctx):
     ctx.case(("upgrad", str(J), str(pv)), nontrivial=True)
     ctx.count("upgrad_ladders")
     ctx.cov["upgrad_worst_defect_ratio"] = max(ctx.cov.get("upgrad_worst_defect_ratio", 0.0), max(ratios))
-    rp = {"aggregator": "UPGrad", "pref": str(pv), "J": [[str(v) for v in r] for r in J], "c1": c1.tolist(), "c2": c2.tolist(),
+    rp = {"aggregator": "UPGrad", "pref": str(pv), "pref_dtype": str(pd), "J": [[str(v) for v in r] for r in J], "c1": c1.tolist(), "c2": c2.tolist(),
           "a": a, "b": b, "ladder": ladder, "defect/(sqrt(reg_eps) s |w|)": ratios}
     if max(ratios) > UPGRAD_CONST:
         ctx.violation(f"UPGrad: linearity defect exceeds {UPGRAD_CONST}·sqrt(reg_eps)·s·|w|: ratios along the reg_eps "
